@@ -7,25 +7,32 @@ from common import *
 import kani
 
 
-def run_rust_tests(pkg, injections, filter_name, timeout=1800, no_args=False):
+def run_rust_tests(pkg, injections, filter_name, timeout=1800, no_args=False, cargo_args=None):
     """injections: [(relative source file, rust code appended)]. -> {test name: 'ok'|'FAILED'}, raw output"""
     with kani.FixedScratch("replay") as fs:
         for rel, code in injections:
             p = os.path.join(fs.repo, rel)
             if not os.path.exists(p):
-                return None, "source file %s not found" % rel
+                if "/tests/" in rel and os.path.isdir(os.path.dirname(os.path.dirname(p))):
+                    os.makedirs(os.path.dirname(p), exist_ok=True)       # a new integration-test file of the crate
+                else:
+                    return None, "source file %s not found" % rel
             with open(p, "a") as f:
                 f.write("\n" + code + "\n")
         env = dict(ENV)
         env["CARGO_TARGET_DIR"] = fs.target
         # no_args: some tests of azure-proxy-agent initialise a clap CLI from the process arguments, which rejects any
         # libtest filter/option; such replays run the whole test binary and pick their results by name
-        cmd = ["cargo", "test", "--offline", "-p", pkg] + ([] if no_args else [filter_name, "--", "--test-threads", "1"])
+        cmd = ["cargo", "test", "--offline", "-p", pkg] + (cargo_args or []) + ([] if no_args else [filter_name, "--", "--test-threads", "1"])
         rc, out, err, secs = run(cmd, cwd=fs.repo, env=env, timeout=timeout)
         res = {}
         for m in re.finditer(r"^test (\S+) \.\.\. (ok|FAILED)", out, re.M):
             res[m.group(1).split("::")[-1]] = m.group(2)
-        return res, (out + err)[-3000:]
+        full = out + err
+        if os.environ.get("VERIF_DEBUG_OUT"):
+            open(os.environ["VERIF_DEBUG_OUT"], "w").write(full)
+        panics = "\n".join(m.group(0)[:1500] for m in re.finditer(r"^thread '[^']*'[^\n]*panicked at [^\n]*\n[^\n]*", full, re.M))
+        return res, (panics + "\n" if panics else "") + full[-3000:]
 
 
 AUTHORIZE_TEST = '''
